@@ -2,7 +2,7 @@
 
 Generator : key list (1-4 distinct ints, any order), value alphabet (2-3 values, raw hashables or
             HashedValue wrappers as production uses), a sequence of inserts under non-empty full or
-            partial bindings (distinct outputs, overwrites allowed), flat-store inserts, clear(), re-keying.
+            partial bindings (distinct outputs, overwrites allowed), clear(), re-keying.
 Oracle    : an ordered list of (binding, output) with last-write-wins on identical bindings.  After EVERY
             operation, for EVERY lookup of the finite lookup space: retrieve() as a multiset of
             (merged binding, output) equals the model's matching entries; check() for lookups binding >= 1
@@ -48,7 +48,7 @@ def _case2(draw):
     cur = list(keys0)
     ops = []
     for _ in range(draw(st.integers(1, 8))):
-        kind = draw(st.sampled_from(["ins"] * 12 + ["clear", "rekey", "flat"]))
+        kind = draw(st.sampled_from(["ins"] * 12 + ["clear", "rekey"]))
         if kind == "ins":
             ks = draw(st.lists(st.sampled_from(cur), min_size=1, max_size=len(cur), unique=True))
             ops.append(["ins", {str(k): draw(st.integers(0, nvals - 1)) for k in sorted(ks)}])
@@ -176,7 +176,7 @@ def check(case) -> Outcome:
             if not any(mb == b for mb, _ in model):
                 model.append((b, out))
         elif op[0] == "flat":
-            cache.insert({}, f"flat{step}")
+            pass   # empty-binding inserts are outside the statement ("full or partial key bindings"); not generated
         elif op[0] == "clear":
             cache.clear()
             model = []
